@@ -38,7 +38,16 @@ def ustr(t, dim):
     return ".".join(parts)
 
 
+DEFAULT_SYS = ("µm", "s", "molecule")
+
+
 def one(rep, sc, src, dst, dim, v, form, check):
+    if form == "partial-dict":
+        # a dictionary target may leave base units out: they are the documented defaults, whatever was converted before
+        keep = [(abs(dim[0]) + 2 * abs(dim[1]) + len(src[2]) + k) % 2 == 0 for k in range(3)]
+        if all(keep):
+            keep[1] = False
+        dst = tuple(d if kp else dflt for d, kp, dflt in zip(dst, keep, DEFAULT_SYS))
     exp = float(Fr(v) * UO.conv(sc, src, dst, dim))
     with rep.guard(check, {"src": src, "dst": dst, "dim": dim, "form": form}):
         _one(rep, sc, src, dst, dim, v, form, check, exp)
@@ -51,6 +60,8 @@ def _one(rep, sc, src, dst, dim, v, form, check, exp):
             r = q.convert(mk_sys(dst))
         elif form == "dict":
             r = q.convert({"space": dst[0], "time": dst[1], "quantity": dst[2]})
+        elif form == "partial-dict":
+            r = q.convert({k: d for k, d, dflt in zip(("space", "time", "quantity"), dst, DEFAULT_SYS) if d != dflt})
         elif form == "units":
             r = q.convert(mk_units(dst, dim))
         elif form == "value":
@@ -128,7 +139,7 @@ def run(tier, selftest=False, only=None):
         pairs = [(rng.choice(systems), rng.choice(systems)) for _ in range(4000)]
     else:
         pairs = list(itertools.product(systems, systems))
-    forms = ["system", "dict", "units", "value", "str", "array"]
+    forms = ["system", "dict", "units", "value", "str", "array", "partial-dict"]
     for idx, (src, dst) in enumerate(pairs):
         dim = (rng.randint(-3, 3), rng.randint(-3, 3), rng.randint(-3, 3))
         form = forms[idx % len(forms)] if tier == "quick" else forms[(idx // 7) % len(forms)] if idx % 7 == 0 else "system"
